@@ -14,7 +14,7 @@ for name in sorted(m):
     own = fired.get(prop, "")
     rules = ";".join(sorted({x.split(":")[0] for x in own.split(" ", 1)[-1].split(";") if x})) if own else ("cannot decide" if prop in m[name].get("broken", {}) else "-")
     others = ", ".join(sorted(p for p in fired if p != prop)) or "-"
-    what = (meta.get("defect") or meta.get("what") or meta.get("title") or "").replace("|", "/").replace("\n", " ")[:150]
+    what = (meta.get("defect") or meta.get("what") or meta.get("title") or meta.get("summary") or "").replace("|", "/").replace("\n", " ")[:150]
     needs = (meta.get("failing_input") or meta.get("needs") or "")
     needs = (needs if isinstance(needs, str) else json.dumps(needs)).replace("|", "/").replace("\n", " ")[:150]
     print(f"| {name} | {what} | {needs} | {rules} | {others} |")
